@@ -94,10 +94,13 @@ def gen_cases(rng, n, every_crash=False):
         if every_crash:
             for k in range(0, 8):
                 for ph in PHASES:
-                    cases.append(dict(c, ops=[dict(o, crash=[k, ph])]))
+                    cases.append(dict(c, ops=[dict(o, crash=[k, ph] + (["base"] if (k + len(ph)) % 3 == 0 else []))]))
         else:
             for _ in range(2):
-                cases.append(dict(c, ops=[dict(o, crash=[rng.choice([0, 0, 1, 2, 3, 5, 8]), rng.choice(PHASES)])]))
+                cr = [rng.choice([0, 0, 1, 2, 3, 5, 8]), rng.choice(PHASES)]
+                if rng.random() < 0.4:
+                    cr.append("base")        # an interruption that is not an Exception (KeyboardInterrupt-like)
+                cases.append(dict(c, ops=[dict(o, crash=cr)]))
     return cases
 
 
